@@ -196,6 +196,37 @@ Definition module_version (os : os_class) (ver : list Z) : option (list Z) :=
   | _ => None
   end.
 
+
+(* ------------------------------------------------------------------ CPU contexts *)
+(* MinidumpContext::read: the layout is chosen by the raw processor_architecture of the system info;
+   the struct is read; ContextFlagsCpu::from_flags(context_flags) (= flags & CONTEXT_CPU_MASK, restricted
+   to the declared cpu bits; u64 flag words are truncated to u32 first) must equal the architecture's constant *)
+Definition ctx_spec (arch : Z) : option (layout * Z) :=
+  if (arch =? PROCESSOR_ARCHITECTURE_INTEL) || (arch =? PROCESSOR_ARCHITECTURE_IA32_ON_WIN64) then Some (L_CONTEXT_X86, CF_CONTEXT_X86)
+  else if arch =? PROCESSOR_ARCHITECTURE_AMD64 then Some (L_CONTEXT_AMD64, CF_CONTEXT_AMD64)
+  else if arch =? PROCESSOR_ARCHITECTURE_PPC then Some (L_CONTEXT_PPC, CF_CONTEXT_PPC)
+  else if arch =? PROCESSOR_ARCHITECTURE_PPC64 then Some (L_CONTEXT_PPC64, CF_CONTEXT_PPC64)
+  else if arch =? PROCESSOR_ARCHITECTURE_SPARC then Some (L_CONTEXT_SPARC, CF_CONTEXT_SPARC)
+  else if arch =? PROCESSOR_ARCHITECTURE_ARM then Some (L_CONTEXT_ARM, CF_CONTEXT_ARM)
+  else if arch =? PROCESSOR_ARCHITECTURE_ARM64 then Some (L_CONTEXT_ARM64, CF_CONTEXT_ARM64)
+  else if arch =? PROCESSOR_ARCHITECTURE_ARM64_OLD then Some (L_CONTEXT_ARM64_OLD, CF_CONTEXT_ARM64_OLD)
+  else if arch =? PROCESSOR_ARCHITECTURE_MIPS then Some (L_CONTEXT_MIPS, CF_CONTEXT_MIPS)
+  else None.
+(* context_flags is the first field, except in CONTEXT_AMD64 where six home registers precede it *)
+Definition ctx_flags (arch : Z) (v : value) : Z :=
+  nth (if arch =? PROCESSOR_ARCHITECTURE_AMD64 then 6%nat else 0%nat) (vflat v) 0.
+Definition flags_ok (cf flags : Z) : bool :=
+  Z.land (Z.land (flags mod 4294967296) CONTEXT_CPU_MASK) CF_ALL_BITS =? cf.
+Definition read_context (e : endian) (arch : Z) (bytes : list Z) : option value :=
+  match ctx_spec arch with
+  | None => None
+  | Some (L, cf) =>
+      match dec e L bytes with
+      | None => None
+      | Some (v, _) => if flags_ok cf (ctx_flags arch v) then Some v else None
+      end
+  end.
+
 (* ------------------------------------------------------------------ list framing *)
 (* read_stream_list header: u32 count; the stream is exactly 4 + n*size bytes, or 4 more (padding) *)
 Definition dec_list_hdr (e : endian) (esize : Z) (bs : list Z) : option (Z * list Z) :=
@@ -515,6 +546,23 @@ Definition dec_misc (e : endian) (all bs : list Z) : option (Z * list Z) :=
   match misc_try e bs 3 with Some r => Some r | None =>
   match misc_try e bs 2 with Some r => Some r | None => misc_try e bs 1 end end end end.
 
+(* --- structs carried as their flat integer lists: Breakpad info, assertion info, thread info entries *)
+Definition enc_flat (L : layout) (e : endian) (off : Z) (ints : list Z) : section :=
+  match unflat L ints with
+  | Some (v, _) => (lsize L, enc e L v)
+  | None => (0, [])
+  end.
+Definition dec_flat (L : layout) (e : endian) (all bs : list Z) : option (list Z) :=
+  match dec e L bs with Some (v, _) => Some (vflat v) | None => None end.
+Definition flat_codec (L : layout) : icodec (list Z) := {|
+  ic_layout := L;
+  ic_aux := fun _ _ => [];
+  ic_value := fun l _ => match unflat L l with Some (v, _) => v | None => VNil end;
+  ic_read := fun _ _ v => Some (Some (vflat v)) |}.
+(* --- streams the reader keeps as raw bytes (Linux /proc text, limits): read() = the stream itself *)
+Definition enc_raw (e : endian) (off : Z) (b : list Z) : section := (zlen b, b).
+Definition dec_raw (e : endian) (all bs : list Z) : option (list Z) := Some bs.
+
 (* ------------------------------------------------------------------ the dump *)
 Record model := {
   m_version : Z;            (* low 16 bits = MINIDUMP_VERSION *)
@@ -530,11 +578,17 @@ Record model := {
   m_tnames : option (list (Z * list Z));
   m_unloaded : option (list munloaded);
   m_meminfo : option (list (list Z));
-  m_misc : option (Z * list Z)
+  m_misc : option (Z * list Z);
+  m_breakpad : option (list Z);          (* MINIDUMP_BREAKPAD_INFO: 3 integers *)
+  m_assertion : option (list Z);         (* MINIDUMP_ASSERTION_INFO: 3*128 UTF-16 units, line, type *)
+  m_thread_info : option (list (list Z)); (* MINIDUMP_THREAD_INFO entries *)
+  m_lx_cpuinfo : option (list Z); m_lx_status : option (list Z); m_lx_lsb : option (list Z);
+  m_lx_environ : option (list Z); m_lx_maps : option (list Z); m_lx_limits : option (list Z)
 }.
 
 Definition UNLOADED_HDR : Z := 12.
 Definition MEMINFO_HDR : Z := lsize L_MINIDUMP_MEMORY_INFO_LIST.     (* 16: the count is a u64 *)
+Definition THREADINFO_HDR : Z := 12.
 
 Definition ob {A} (ty : Z) (o : option A) (f : Z -> A -> section) : Z * option (Z -> section) :=
   (ty, match o with Some a => Some (fun off => f off a) | None => None end).
@@ -550,7 +604,16 @@ Definition table (e : endian) (m : model) : list (Z * option (Z -> section)) :=
     ob ST_ThreadNamesStream (m_tnames m) (enc_list tname_codec e (m_pad_lists m));
     ob ST_UnloadedModuleListStream (m_unloaded m) (enc_exlist unloaded_codec e UNLOADED_HDR 4);
     ob ST_MemoryInfoListStream (m_meminfo m) (enc_exlist meminfo_codec e MEMINFO_HDR 8);
-    ob ST_MiscInfoStream (m_misc m) (enc_misc e) ].
+    ob ST_MiscInfoStream (m_misc m) (enc_misc e);
+    ob ST_BreakpadInfoStream (m_breakpad m) (enc_flat L_MINIDUMP_BREAKPAD_INFO e);
+    ob ST_AssertionInfoStream (m_assertion m) (enc_flat L_MINIDUMP_ASSERTION_INFO e);
+    ob ST_ThreadInfoListStream (m_thread_info m) (enc_exlist (flat_codec L_MINIDUMP_THREAD_INFO) e THREADINFO_HDR 4);
+    ob ST_LinuxCpuInfo (m_lx_cpuinfo m) (enc_raw e);
+    ob ST_LinuxProcStatus (m_lx_status m) (enc_raw e);
+    ob ST_LinuxLsbRelease (m_lx_lsb m) (enc_raw e);
+    ob ST_LinuxEnviron (m_lx_environ m) (enc_raw e);
+    ob ST_LinuxMaps (m_lx_maps m) (enc_raw e);
+    ob ST_MozLinuxLimits (m_lx_limits m) (enc_raw e) ].
 
 (* place the present sections one after the other from [off]: (type, (offset, section)) *)
 Fixpoint place (t : list (Z * option (Z -> section))) (off : Z) : list (Z * (Z * section)) :=
@@ -596,7 +659,10 @@ Record dview := {
   v_tnames : sres (list (Z * list Z));
   v_unloaded : sres (list munloaded);
   v_meminfo : sres (list (list Z));
-  v_misc : sres (Z * list Z)
+  v_misc : sres (Z * list Z);
+  v_breakpad : sres (list Z); v_assertion : sres (list Z); v_thread_info : sres (list (list Z));
+  v_lx_cpuinfo : sres (list Z); v_lx_status : sres (list Z); v_lx_lsb : sres (list Z);
+  v_lx_environ : sres (list Z); v_lx_maps : sres (list Z); v_lx_limits : sres (list Z)
 }.
 
 (* BTreeMap::insert in file order: a later entry of the same type replaces the earlier one *)
@@ -667,7 +733,16 @@ Definition decode_dump (all : list Z) : option dview :=
                 v_tnames := get_stream (dec_list tname_codec) e all dir ST_ThreadNamesStream;
                 v_unloaded := get_stream (fun e => dec_exlist unloaded_codec e false) e all dir ST_UnloadedModuleListStream;
                 v_meminfo := get_stream (fun e => dec_exlist meminfo_codec e true) e all dir ST_MemoryInfoListStream;
-                v_misc := get_stream dec_misc e all dir ST_MiscInfoStream |})
+                v_misc := get_stream dec_misc e all dir ST_MiscInfoStream;
+                v_breakpad := get_stream (dec_flat L_MINIDUMP_BREAKPAD_INFO) e all dir ST_BreakpadInfoStream;
+                v_assertion := get_stream (dec_flat L_MINIDUMP_ASSERTION_INFO) e all dir ST_AssertionInfoStream;
+                v_thread_info := get_stream (fun e => dec_exlist (flat_codec L_MINIDUMP_THREAD_INFO) e false) e all dir ST_ThreadInfoListStream;
+                v_lx_cpuinfo := get_stream dec_raw e all dir ST_LinuxCpuInfo;
+                v_lx_status := get_stream dec_raw e all dir ST_LinuxProcStatus;
+                v_lx_lsb := get_stream dec_raw e all dir ST_LinuxLsbRelease;
+                v_lx_environ := get_stream dec_raw e all dir ST_LinuxEnviron;
+                v_lx_maps := get_stream dec_raw e all dir ST_LinuxMaps;
+                v_lx_limits := get_stream dec_raw e all dir ST_MozLinuxLimits |})
   | _ => None
   end)).
 
@@ -677,7 +752,10 @@ Definition view_of (e : endian) (m : model) : dview :=
      v_sysinfo := sres_of (m_sysinfo m); v_threads := sres_of (m_threads m); v_modules := sres_of (m_modules m);
      v_memory := sres_of (m_memory m); v_memory64 := sres_of (m_memory64 m); v_exception := sres_of (m_exception m);
      v_tnames := sres_of (m_tnames m); v_unloaded := sres_of (m_unloaded m); v_meminfo := sres_of (m_meminfo m);
-     v_misc := sres_of (m_misc m) |}.
+     v_misc := sres_of (m_misc m);
+     v_breakpad := sres_of (m_breakpad m); v_assertion := sres_of (m_assertion m); v_thread_info := sres_of (m_thread_info m);
+     v_lx_cpuinfo := sres_of (m_lx_cpuinfo m); v_lx_status := sres_of (m_lx_status m); v_lx_lsb := sres_of (m_lx_lsb m);
+     v_lx_environ := sres_of (m_lx_environ m); v_lx_maps := sres_of (m_lx_maps m); v_lx_limits := sres_of (m_lx_limits m) |}.
 
 (* ------------------------------------------------------------------ memory lookups *)
 (* MinidumpMemoryBase::memory_range *)
